@@ -227,3 +227,41 @@ def resolved_text(cfg: CFG, expr: ast.AST, at: int | None = None, depth: int = 6
         at = cfg.node_of(expr)
     e = _Subst(cfg, at, depth).visit(copy.deepcopy(expr))
     return ast.unparse(fold(ast.fix_missing_locations(e)))
+
+
+def ifexp_cases(text: str, limit: int = 3) -> list[str]:
+    """The expression `text` specialised to every truth assignment of the tests of its conditional expressions (the same
+    test takes the same branch everywhere), each folded: `c[(a, b)[0] if t else (b, a)[0]]`  ->  [`c[a]`, `c[b]`].
+    At most `limit` distinct tests; beyond that the text is returned as it is."""
+    import copy
+    import itertools
+
+    try:
+        e = ast.parse(text, mode="eval").body
+    except SyntaxError:
+        return [text]
+    tests: list[str] = []
+    for n in ast.walk(e):
+        if isinstance(n, ast.IfExp) and ast.unparse(n.test) not in tests:
+            tests.append(ast.unparse(n.test))
+    if not tests or len(tests) > limit:
+        return [text]
+    out = []
+    for choice in itertools.product((True, False), repeat=len(tests)):
+        env = dict(zip(tests, choice))
+
+        class T(ast.NodeTransformer):
+            def visit_IfExp(self, node: ast.IfExp):
+                self.generic_visit(node)
+                return node.body if env[ast.unparse(node.test)] else node.orelse
+
+        # the tests were recorded before the rewrite: visit bottom-up on a copy whose tests are still the original text
+        class T2(ast.NodeTransformer):
+            def visit_IfExp(self, node: ast.IfExp):
+                key = ast.unparse(node.test)
+                br = node.body if env.get(key, True) else node.orelse
+                return self.visit(br)
+
+        v = T2().visit(copy.deepcopy(e))
+        out.append(ast.unparse(fold(ast.fix_missing_locations(v))))
+    return out
